@@ -42,3 +42,12 @@ OBLS.append(Obl('C03.parse_scheme_with_colon<false>.always_succeeds', ['C03', 'C
                 specs=dict({c: 'skel/%s.spec' % c for c in ['agg_parse_scheme_with_colon_0', 'agg_set_scheme', 'agg_set_scheme_from_view_with_colon']}),
                 bufn=6, unwind=10, defines=['STR_CAP=6', 'BUF_START=1'], includes=INC, globals=[('omitted', 'const unsigned int')], solver='cadical', timeout=900,
                 object_bits=11, bound='scheme <= 6 bytes', note='the parser-time scheme setter always returns true and does not touch is_valid / has_opaque_path (skeleton contract used by the parser obligations)'))
+
+# ---- ada::url twins of the host setters (skeleton obligations with the C19 record invariant)
+for fn in ('url_set_host_or_hostname_0', 'url_set_host_or_hostname_1'):
+    repl = ['url_parse_host', 'url_set_port', 'get_host_delimiter_location']
+    OBLS.append(Obl('C03.%s.atomic_record_size' % fn.replace('url_', 'url.'), ['C03', 'C09', 'C19', 'C04', 'C02'], 'B(6)', 'c03/url_setter.c', roots=[fn, 'url_get_href_size'], stub=repl,
+                    specs={'url_parse_host': 'skel/url_parse_host.spec', 'url_set_port': 'skel/url_set_port.spec', 'get_host_delimiter_location': 'skel/get_host_delimiter_location.spec'},
+                    bufn=6, unwind=10, defines=['STR_CAP=6', 'BUF_START=1', 'SETTER=' + fn], includes=INC + ['model/url_setter_ghost.h'], enums=[('ada::scheme::type', 'FILE')],
+                    solver='cadical', timeout=1800, object_bits=11, bound='input <= 6 bytes, every string <= 6 bytes; sub-parsers abstract',
+                    note='ada::url host setter skeleton: failure restores the object, the credentials/port record invariant is preserved, the length limit holds at every exit'))
